@@ -55,6 +55,8 @@ def cases(rng, tier):
     for op in G.ARITH + [0x35, 0x51, 0x54, 0x5a]:
         for _ in range(3 if tier == "quick" else 25):
             cs.append({"line": f"cfg {C.hexs(G.gen_opcode_probe(rng, op))}", "exe": "analyze", "tags": ["cfg-probe"]})
+    for _ in range(40 if tier == "quick" else 500):
+        cs.append({"line": f"cfg {C.hexs(G.gen_loops(rng))}", "exe": "analyze", "tags": ["cfg-loops"]})
     return cs
 
 
